@@ -79,7 +79,7 @@ impl Node {
         r.map(|_| out)
     }
     pub fn poll_at(&mut self, now: i64) -> i64 {
-        self.iface.poll_at(Instant::from_millis(now), &self.sockets).map(|t| (t.total_micros() + 999).div_euclid(1000)).unwrap_or(-1)
+        self.iface.poll_at(Instant::from_millis(now), &self.sockets).map(crate::util::ms_ceil).unwrap_or(-1)
     }
 }
 
